@@ -8,7 +8,8 @@ Oracle: for every input x (parseable or not): format(format(x)) == format(x); an
 `garden format --check f` exits 0 on a file holding format(x) (CLI, sample).
 Keys (complete fixed set, see KEYS / classify): C18/second-pass-failed, C18/carriage-return,
 C18/second-pass-unattributed, C18/second-pass-<phase>[-parse-error] for phase in wrap, spans, indent,
-blanks, types, spacing, final, C18/check-rejects-formatter-output, C18/check-with-testing-footer.
+blanks, types, spacing, final, C18/check-rejects-formatter-output, C18/check-with-testing-footer,
+C18/check-times-out.
 Tie: the Lean phase models reproduce the real intermediate texts (`fmt_trace`) of every input,
 including the unparseable ones (the C17 run does the same for parseable inputs with token marks).
 """
@@ -47,7 +48,8 @@ KEYS = (["C18/second-pass-failed",            # the formatter does not return on
          "C18/carriage-return",               # format(x) still contains `\r` (str::lines strips one per phase)
          "C18/second-pass-unattributed",      # outputs differ but no phase of the traced 2nd pass changes its input
          "C18/check-rejects-formatter-output",  # CLI `format --check` exits non-zero on format(x)
-         "C18/check-with-testing-footer"]       # same, file has a `// args:` reftest footer (CLI strips it first)
+         "C18/check-with-testing-footer",       # same, file has a `// args:` reftest footer (CLI strips it first)
+         "C18/check-times-out"]                 # CLI `format --check` does not finish in 300 s (after a 30 s attempt)
         + ["C18/second-pass-%s%s" % (p, q) for p in PHASES for q in ("", "-parse-error")])
 
 
@@ -62,7 +64,7 @@ def classify(ctx, src, f1_hex):
     the text is a valid program, so a new seed cannot produce a new key for an old mechanism."""
     if "\r" in unhex(f1_hex):
         return "C18/carriage-return"
-    tr, ast = ctx.garden_batch(["fmt_trace " + f1_hex, "ast " + f1_hex], shards=1)
+    tr, ast = F.garden_batch(ctx, ["fmt_trace " + f1_hex, "ast " + f1_hex], shards=1)
     texts = F.trace_texts(tr or "")
     phase = None
     prev = f1_hex
@@ -94,12 +96,12 @@ def run(ctx):
                 "perturbed, probes) plus damaged (unparseable) variants and CRLF renderings; every input on which the "
                 "formatter returns is judged. Non-trivial = the first formatting pass changed the text.")
     hx = [hexs(s) for _, s in items]
-    r1 = ctx.garden_batch(["format " + h for h in hx])
+    r1 = F.garden_batch(ctx, ["format " + h for h in hx])
     ok = [i for i, r in enumerate(r1) if r and r.startswith("OK ")]
     ctx.cov["inputs_generated"] = len(items)
     ctx.cov["formatter_did_not_return_skipped"] = len(items) - len(ok)   # panics: C01
     f1 = {i: r1[i][3:] for i in ok}
-    r2 = dict(zip(ok, ctx.garden_batch(["format " + f1[i] for i in ok])))
+    r2 = dict(zip(ok, F.garden_batch(ctx, ["format " + f1[i] for i in ok])))
     n_unparse = 0
     n_changed = 0
     for i in ok:
@@ -126,7 +128,7 @@ def run(ctx):
     ctx.cov["damaged_inputs"] = n_unparse
 
     # ---- tie: phase models vs real intermediate texts, all inputs (no token marks needed)
-    r_tr = dict(zip(ok, ctx.garden_batch(["fmt_trace " + hx[i] for i in ok])))
+    r_tr = dict(zip(ok, F.garden_batch(ctx, ["fmt_trace " + hx[i] for i in ok])))
     fc_idx = [i for i in ok if r_tr[i] and r_tr[i].startswith("OK ")]
     r_fc = dict(zip(fc_idx, F.model_batch(ctx, ["fmt_check %s (marks_wrap) (marks_spans)" % r_tr[i][3:] for i in fc_idx])))
     n_panic_model = 0
@@ -155,6 +157,10 @@ def run(ctx):
         with open(p, "w", encoding="utf-8", newline="") as f:
             f.write(unhex(f1[i]))
         rc, so, se = ctx.garden(["format", "--check", p], timeout=30)
+        if rc == -9999:
+            # a 0.3 s command that hits the wall-clock limit is machine load, not the formatter:
+            # judge it only after a second, generous attempt
+            rc, so, se = ctx.garden(["format", "--check", p], timeout=300)
         return i, rc, se
 
     n_cli = 0
@@ -164,7 +170,9 @@ def run(ctx):
         if rc != 0:
             out1 = unhex(f1[i])
             key = "C18/check-rejects-formatter-output"
-            if "// args:" in out1 or "// expected" in out1:
+            if rc == -9999:
+                key = "C18/check-times-out"
+            elif "// args:" in out1 or "// expected" in out1:
                 key = "C18/check-with-testing-footer"
             ctx.fail(key, "`garden format --check` exits %d on a file the formatter produced: %s" % (rc, se[:200]),
                      origin=items[i][0], file_contents=out1, command="garden format --check f.gdn")
